@@ -1075,20 +1075,42 @@ def check_tagunion(ctx, db):
     ctx.check(ok, 'R-TAGUNION', 'write_oas/reference-name', nm.loc() if nm is not None else w.loc(), 'the cell name written for a PLACEMENT (and its length) is the resolved name of the reference, not a union member read under the wrong tag')
 
 
+def check_binary_values(ctx, db):
+    """Property values are length-delimited byte strings (text AND binary): on the whole save/load path their `bytes` are never
+    handed to a function that reads up to a NUL (strcmp, strncmp, strlen, ...): two binary values that agree up to an embedded
+    NUL would be taken for each other (de-duplication of the PROPSTRING table) or cut short. Controls: controls/widths.cpp."""
+    from .. import widths
+    from ..controls import load_controls
+    n = 0
+    for f in db.functions:
+        if f.body is None or f.relfile() not in ('src/property.cpp', 'src/library.cpp', 'src/oasis.cpp'):
+            continue
+        n += 1
+        for c, a in widths.cstring_on_binary(f):
+            ctx.violation('R-WIDTH', '%s/cstring-on-binary@%s' % (f.qn.replace('gdstk::', ''), c.loc()), c.loc(),
+                          'the bytes of a property value are passed to %s, which stops at the first NUL byte: binary values that share a prefix ending in 0x00 are confused / truncated' % (c.callee or '').split('::')[-1])
+    ctx.ok('R-WIDTH', 'property-values/no-cstring-functions', '', 'no property value buffer reaches a NUL-terminated string function (%d functions)' % n)
+    ctx.require('R-WIDTH functions scanned', n, 60)
+    cdb = load_controls()
+    ctx.control('ctl_binary_equal_bad (R-WIDTH fires)', bool(widths.cstring_on_binary(cdb.fn('controls::ctl_binary_equal_bad'))))
+    ctx.control('ctl_binary_equal_ok (R-WIDTH silent)', not widths.cstring_on_binary(cdb.fn('controls::ctl_binary_equal_ok')))
+
+
 def run(ctx):
     db = ctx.db
-    check_records(ctx, db)
-    check_property(ctx, db)
-    check_repetition(ctx, db)
-    check_path_extensions(ctx, db)
-    check_angle(ctx, db)
-    check_units(ctx, db)
-    check_signature(ctx, db)
-    check_cblock(ctx, db)
-    check_validator(ctx, db)
-    check_detection(ctx, db)
-    check_ctrapezoid_tables(ctx, db)
-    check_tagunion(ctx, db)
+    ctx.attempt(check_records, ctx, db)
+    ctx.attempt(check_property, ctx, db)
+    ctx.attempt(check_repetition, ctx, db)
+    ctx.attempt(check_path_extensions, ctx, db)
+    ctx.attempt(check_angle, ctx, db)
+    ctx.attempt(check_units, ctx, db)
+    ctx.attempt(check_signature, ctx, db)
+    ctx.attempt(check_cblock, ctx, db)
+    ctx.attempt(check_validator, ctx, db)
+    ctx.attempt(check_detection, ctx, db)
+    ctx.attempt(check_ctrapezoid_tables, ctx, db)
+    ctx.attempt(check_binary_values, ctx, db)
+    ctx.attempt(check_tagunion, ctx, db)
 
 
 MANIFEST = dict(
